@@ -2,37 +2,42 @@ import VncModel.Gen.C09
 import VncModel.Ws.Codec
 /-
 Model of the upgrade handshake, `webSocketsCheck` + `webSocketsHandshake` + `webSocketsGenSha1Key`
-(websockets.c), for plain ("ws") connections whose first bytes are `GET `.
+(websockets.c, with fixes/C09-handshake-unterminated-value.diff applied: the request buffer is kept
+NUL-terminated while it is filled), for plain ("ws") connections whose first four bytes are there.
 
-The request is consumed byte by byte (as the code does through `rfbReadExactTimeout(cl, buf+len, 1)`)
-up to the empty line, the end of what the client sent (the code's 100 ms time-out) or 4095 bytes.
-SHA-1 is a parameter (`sha1`); base64 is the model of base64.c.
-
-Not modelled (never generated by the check): requests carrying both `Sec-WebSocket-Key1` and
-`-Key2` (Hixie leftovers: the code then waits for 8 more bytes), header lines terminated by a bare
-LF whose value is empty, TLS (`wss`).
+The scanner is modelled at the level of the 4096-byte buffer `buf`:
+* `Scan.buf`       = buf[0 .. len), with the NUL patches the code applies (`buf[len-2] = 0`,
+                     `buf[len-11] = 0`); buf[len] is always 0 (the fix), so every pointer into the
+                     buffer is a C string (`Scan.strAt`);
+* header values    = *offsets* into the buffer, exactly like the `char *` variables of the code —
+                     their contents are read when they are used (after the loop), so the model also
+                     covers the degenerate lines (`"Sec-WebSocket-Key: \n"`) whose value pointer
+                     lies behind its own terminator;
+* `Scan.writes`    = every index of `buf` that has been written (for the bounds theorem);
+* the request is consumed one byte at a time (as `rfbReadExactTimeout(cl, buf+len, 1)` does) until
+  the empty line, 4095 bytes, or the end of the input, which is either a time-out (the code then
+  goes on with what it has) or a closed connection / read error (handshake fails).
+SHA-1 is a parameter (`sha1`); base64 is the model of base64.c.  TLS (`wss`) is not modelled.
 -/
 namespace VncModel.Ws
 open VncModel.Gen
 
-def strBytes (s : String) : List Byte := s.toUTF8.toList
+/-- ASCII string literal as bytes (kernel-reducible) -/
+def strBytes (s : String) : List Byte := s.toList.map (fun c => UInt8.ofNat c.toNat)
 
 def lowerB (c : Byte) : Byte := if 65 ≤ c ∧ c ≤ 90 then c + 32 else c
 
-/-- `strncasecmp(pfx, line, min(llen, |pfx|)) == 0` for a line that ends in '\n' -/
-def hasPrefixCI (pfx : String) (line : List Byte) : Bool :=
-  let p := strBytes pfx
-  p.length ≤ line.length && (line.take p.length).map lowerB == p.map lowerB
-
-/-- the C string starting at `bs` -/
-def cstr (bs : List Byte) : List Byte := bs.takeWhile (· != 0)
+/-- `strncasecmp(pfx, line, min(llen, |pfx|)) == 0` for a line that ends in '\n' (a line shorter
+than the prefix differs from it at its last character, the line feed) -/
+def hasPrefixCI (pfx : List Byte) (line : List Byte) : Bool :=
+  pfx.length ≤ line.length && (line.take pfx.length).map lowerB == pfx.map lowerB
 
 /-- `strstr(hay, needle) != NULL` -/
 def hasInfix (needle : List Byte) : List Byte → Bool
   | [] => needle.isEmpty
   | h :: t => (needle.isPrefixOf (h :: t)) || hasInfix needle t
 
-/-- `(char) strtol(s, NULL, 10) != 0` -/
+/-- `(char) strtol(s, NULL, 10) != 0` for the C string `s` -/
 def versionNonZero (s : List Byte) : Bool :=
   let s := s.dropWhile isSpace
   let (neg, s) := match s with
@@ -44,58 +49,128 @@ def versionNonZero (s : List Byte) : Bool :=
   let v := if neg then min v (2 ^ 63) else min v (2 ^ 63 - 1)
   v % 256 != 0
 
-structure HsFields where
-  path : Option (List Byte) := none
-  host : Option (List Byte) := none
-  origin : Option (List Byte) := none
-  protocol : Option (List Byte) := none
-  secOrigin : Option (List Byte) := none
-  key : Option (List Byte) := none
-  version : Bool := false
-  deriving Repr
+/-- header-name prefixes the code looks for (all compared case-insensitively), as explicit ASCII
+codes so that proofs can compute with them; `prefix_literals_ok` ties them to the strings -/
+def pGet : List Byte := [71, 69, 84, 32]   -- "GET "
+def pHost : List Byte := [104, 111, 115, 116, 58, 32]   -- "host: "
+def pOrigin : List Byte := [111, 114, 105, 103, 105, 110, 58, 32]   -- "origin: "
+def pKey1 : List Byte := [115, 101, 99, 45, 119, 101, 98, 115, 111, 99, 107, 101, 116, 45, 107, 101, 121, 49, 58, 32]   -- "sec-websocket-key1: "
+def pKey2 : List Byte := [115, 101, 99, 45, 119, 101, 98, 115, 111, 99, 107, 101, 116, 45, 107, 101, 121, 50, 58, 32]   -- "sec-websocket-key2: "
+def pProtocol : List Byte := [115, 101, 99, 45, 119, 101, 98, 115, 111, 99, 107, 101, 116, 45, 112, 114, 111, 116, 111, 99, 111, 108, 58, 32]   -- "sec-websocket-protocol: "
+def pSecOrigin : List Byte := [115, 101, 99, 45, 119, 101, 98, 115, 111, 99, 107, 101, 116, 45, 111, 114, 105, 103, 105, 110, 58, 32]   -- "sec-websocket-origin: "
+def pKey : List Byte := [115, 101, 99, 45, 119, 101, 98, 115, 111, 99, 107, 101, 116, 45, 107, 101, 121, 58, 32]   -- "sec-websocket-key: "
+def pVersion : List Byte := [115, 101, 99, 45, 119, 101, 98, 115, 111, 99, 107, 101, 116, 45, 118, 101, 114, 115, 105, 111, 110, 58, 32]   -- "sec-websocket-version: "
+/-- "base64" / "binary" -/
+def bBase64 : List Byte := [98, 97, 115, 101, 54, 52]   -- "base64"
+def bBinary : List Byte := [98, 105, 110, 97, 114, 121]   -- "binary"
 
-/-- value of a header line: the bytes after the `plen`-byte prefix, with the trailing two
-characters cut (`buf[len-2] = '\0'`), as a C string -/
-def lineValue (line : List Byte) (plen : Nat) : List Byte :=
-  cstr ((line.drop plen).take (line.length - 2 - plen))
+abbrev HSMAX : Nat := C09.maxHandshakeLen
+
+/-- the `char *` variables of `webSocketsHandshake` that point into the request buffer -/
+inductive Fld where
+  | path | host | origin | protocol | secOrigin | key
+  deriving DecidableEq, Repr
+
+structure Scan where
+  buf : List Byte := []
+  linestart : Nat := 0
+  ptr : Fld → Option Nat := fun _ => none      -- NULL or offset into buf
+  key1 : Bool := false
+  key2 : Bool := false
+  version : Bool := false
+  wspath : Option (List Byte) := none
+  writes : List Nat := []
+
+def Scan.len (s : Scan) : Nat := s.buf.length
+
+/-- the C string at offset `p` of the buffer (terminated at the latest by buf[len] = 0) -/
+def Scan.strAt (s : Scan) (p : Nat) : List Byte := (s.buf.drop p).takeWhile (· != 0)
+
+/-- the current line, `line = buf + linestart`, `llen = len - linestart` bytes -/
+def Scan.line (s : Scan) : List Byte := s.buf.drop s.linestart
+
+/-- `buf[i] = '\0'` -/
+def Scan.patch (s : Scan) (i : Nat) : Scan := { s with buf := s.buf.set i 0, writes := i :: s.writes }
+
+def Scan.setPtr (s : Scan) (f : Fld) (p : Nat) : Scan :=
+  { s with ptr := fun g => if g = f then some p else s.ptr g }
+
+/-- which branch of the `else if` chain a complete line takes; `hdr f n`: a header whose value
+pointer `f` is set to `line + n` -/
+inductive LineKind where
+  | get | hdr (f : Fld) (plen : Nat) | key1 | key2 | version | other
+  deriving DecidableEq, Repr
+
+def lineKind (line : List Byte) : LineKind :=
+  if line.length ≥ 16 ∧ pGet.isPrefixOf line then .get
+  else if hasPrefixCI pHost line then .hdr .host 6
+  else if hasPrefixCI pOrigin line then .hdr .origin 8
+  else if hasPrefixCI pKey1 line then .key1
+  else if hasPrefixCI pKey2 line then .key2
+  else if hasPrefixCI pProtocol line then .hdr .protocol 24
+  else if hasPrefixCI pSecOrigin line then .hdr .secOrigin 22
+  else if hasPrefixCI pKey line then .hdr .key 19
+  else if hasPrefixCI pVersion line then .version
+  else .other
+
+/-- the body of the branch: NUL patch and pointer assignment -/
+def applyLine (s : Scan) : LineKind → Scan
+  | .get =>
+    let s' := (s.patch (s.len - 11)).setPtr .path (s.linestart + 4)
+    { s' with wspath := some (s'.strAt (s.linestart + 4)) }          -- free + strdup
+  | .hdr f plen => (s.patch (s.len - 2)).setPtr f (s.linestart + plen)
+  | .key1 => { s.patch (s.len - 2) with key1 := true }
+  | .key2 => { s.patch (s.len - 2) with key2 := true }
+  | .version =>   -- strtol(line+23) runs before the patch
+    { s.patch (s.len - 2) with version := versionNonZero (s.strAt (s.linestart + 23)) }
+  | .other => s
 
 /-- the `else if` chain executed for every complete line other than the empty line -/
-def processLine (s : HsFields) (line : List Byte) : HsFields :=
-  let llen := line.length
-  if llen ≥ 16 ∧ (strBytes "GET ").isPrefixOf line then
-    { s with path := some (cstr ((line.drop 4).take (llen - 11 - 4))) }
-  else if hasPrefixCI "host: " line then { s with host := some (lineValue line 6) }
-  else if hasPrefixCI "origin: " line then { s with origin := some (lineValue line 8) }
-  else if hasPrefixCI "sec-websocket-key1: " line then s
-  else if hasPrefixCI "sec-websocket-key2: " line then s
-  else if hasPrefixCI "sec-websocket-protocol: " line then { s with protocol := some (lineValue line 24) }
-  else if hasPrefixCI "sec-websocket-origin: " line then { s with secOrigin := some (lineValue line 22) }
-  else if hasPrefixCI "sec-websocket-key: " line then { s with key := some (lineValue line 19) }
-  else if hasPrefixCI "sec-websocket-version: " line then
-    { s with version := versionNonZero (line.drop 23) }
-  else s
+def processLine (s : Scan) : Scan := applyLine s (lineKind s.line)
 
-/-- the read loop: `cur` = current line reversed, `n` = bytes read so far;
-returns the fields and the input left unread -/
-def scanRequest : List Byte → List Byte → Nat → HsFields → HsFields × List Byte
-  | [], _, _, s => (s, [])                                  -- time-out: break
-  | b :: rest, cur, n, s =>
-    if n ≥ C09.maxHandshakeLen - 1 then (s, b :: rest)
+/-- how the read loop ended -/
+inductive LoopEnd where
+  | blank       -- the empty line was seen (`break`)
+  | full        -- `len` reached WEBSOCKETS_MAX_HANDSHAKE_LEN - 1
+  | input       -- the client sent nothing more (time-out, or connection closed)
+  | input8      -- ... while the 8 extra bytes of a Hixie request were being read
+  deriving DecidableEq, Repr
+
+/-- `buf[len] = b; len += 1; buf[len] = 0` -/
+def Scan.push (s : Scan) (b : Byte) : Scan :=
+  { s with buf := s.buf ++ [b], writes := (s.len + 1) :: s.len :: s.writes }
+
+/-- the read loop; returns the state, the unread input and the reason for leaving the loop -/
+def scanLoop : List Byte → Scan → Scan × List Byte × LoopEnd
+  | [], s => (s, [], .input)
+  | b :: rest, s =>
+    if s.len ≥ HSMAX - 1 then (s, b :: rest, .full)
     else
-      let cur := b :: cur
-      if cur.length ≥ 2 ∧ b = 10 then
-        if cur = [10, 13] then (s, rest)                     -- "\r\n": end of the request
-        else scanRequest rest [] (n + 1) (processLine s cur.reverse)
-      else scanRequest rest cur (n + 1) s
+      let s := s.push b
+      if s.len - s.linestart ≥ 2 ∧ b = 10 then
+        if s.line = [13, 10] then
+          if s.key1 ∧ s.key2 ∧ s.len + 8 < HSMAX then
+            -- Hixie leftovers: rfbReadExact(cl, buf+len, 8)
+            if rest.length ≥ 8 then
+              ({ s with buf := s.buf ++ rest.take 8,
+                        writes := (List.range 8).map (· + s.len) ++ s.writes }, rest.drop 8, .blank)
+            else
+              ({ s with writes := (List.range rest.length).map (· + s.len) ++ s.writes }, [], .input8)
+          else (s, rest, .blank)                       -- buf[len] = '\0' (already there)
+        else
+          let s := processLine s
+          scanLoop rest { s with linestart := s.len }
+      else scanLoop rest s
 
-/-- "base64" / "binary" as bytes (explicit, so that proofs can compute with them) -/
-def bBase64 : List Byte := [98, 97, 115, 101, 54, 52]
-def bBinary : List Byte := [98, 105, 110, 97, 114, 121]
+/-- how the client's transmission ends after the given bytes -/
+inductive HsEnd where
+  | timeout     -- nothing more within WEBSOCKETS_CLIENT_SEND_WAIT_MS: read returns -1/ETIMEDOUT
+  | closed      -- connection closed or read error
+  deriving DecidableEq, Repr
 
 inductive HsResult where
   | fail
   | ok (response : List Byte) (base64 : Bool) (path : List Byte) (unread : List Byte)
-  deriving Repr
 
 /-- first "%s" replaced by `a`, second by `b` -/
 def fmt2 (fmt : String) (a b : List Byte) : List Byte :=
@@ -109,28 +184,33 @@ def fmt2 (fmt : String) (a b : List Byte) : List Byte :=
 def acceptKey (sha1 : List Byte → List Byte) (key : List Byte) : List Byte :=
   ntop (sha1 (key ++ strBytes C09.guid))
 
-def handshake (sha1 : List Byte → List Byte) (req : List Byte) : HsResult :=
-  if !(strBytes "GET ").isPrefixOf req then .fail else
-  let (s, unread) := scanRequest req [] 0 {}
+/-- the sub-protocol decision: (base64 flag, protocol string of the response; [] = no line) -/
+def chooseProtocol (offered : Option (List Byte)) : Bool × List Byte :=
+  match offered with
+  | some p =>
+    if hasInfix bBase64 p then (true, bBase64)
+    else if hasInfix bBinary p then (false, bBinary) else (false, [])
+  | none => (false, [])
+
+/-- everything after the read loop -/
+def finishHandshake (sha1 : List Byte → List Byte) (s : Scan) (unread : List Byte) : HsResult :=
   if !s.version then .fail else
-  match s.key with
+  match s.ptr .key with
   | none => .fail
-  | some key =>
-    match s.path, s.host with
-    | some path, some _ =>
-      if s.origin.isNone ∧ s.secOrigin.isNone then .fail else
-      let b64 := match s.protocol with
-        | some p => hasInfix bBase64 p
-        | none => false
-      let proto : List Byte :=
-        if b64 then bBase64
-        else match s.protocol with
-          | some p => if hasInfix bBinary p then bBinary else []
-          | none => []
-      let acc := acceptKey sha1 key
-      let resp := if proto.length > 0 then fmt2 C09.handshakeFmt acc proto
-                  else fmt2 C09.handshakeFmtNoProto acc []
-      .ok resp b64 path unread
-    | _, _ => .fail
+  | some k =>
+    if (s.ptr .path).isNone ∨ (s.ptr .host).isNone ∨
+       ((s.ptr .origin).isNone ∧ (s.ptr .secOrigin).isNone) then .fail else
+    let ch := chooseProtocol ((s.ptr .protocol).map s.strAt)
+    let acc := acceptKey sha1 (s.strAt k)
+    let resp := if ch.2.length > 0 then fmt2 C09.handshakeFmt acc ch.2
+                else fmt2 C09.handshakeFmtNoProto acc []
+    .ok resp ch.1 (s.wspath.getD []) unread
+
+/-- `webSocketsCheck` (after a successful 4-byte peek) + `webSocketsHandshake` -/
+def handshake (sha1 : List Byte → List Byte) (req : List Byte) (ending : HsEnd) : HsResult :=
+  if !pGet.isPrefixOf req then .fail else
+  let r := scanLoop req {}
+  if (r.2.2 = .input ∨ r.2.2 = .input8) ∧ ending = .closed then .fail
+  else finishHandshake sha1 r.1 r.2.1
 
 end VncModel.Ws
